@@ -252,6 +252,9 @@ def checkConnect (cfg : Cfg) (a : A) (u : Nat) (m : AMod) (h : Hdr) (evs : List 
       let may := mayRefuse cfg a u r nm
       let a := a.chk (!(must && observedAccept)) "C06" s!"connect of {u} with id {r.modId} had to be refused (id out of range / id or name of a unique module in use) but was accepted"
       let a := a.chk (may || observedAccept) "C06" s!"connect of {u} with id {r.modId} was refused without reason"
+      -- C07: the id (and name) of a departed client can be reused immediately
+      let a := a.chk (may || observedAccept || !(a.mods.any (fun o => !o.alive && (o.modId == r.modId || (!nm.isEmpty && o.name == nm))))) "C07"
+        s!"connect of {u} with id {r.modId} was refused although the only holder of that id / name has departed"
       if observedAccept then
         (a.upd u (fun m => { m with connected := true, modId := r.modId, unique := r.unique, isLogger := r.isLogger,
                                      isDaemon := r.isDaemon, pid := r.pid, name := nm }), some true)
@@ -264,7 +267,10 @@ def checkConnect (cfg : Cfg) (a : A) (u : Nat) (m : AMod) (h : Hdr) (evs : List 
         (a.upd u (fun m => { m with connected := true, modId := id, unique := r.unique, isLogger := r.isLogger,
                                      isDaemon := r.isDaemon, pid := r.pid, name := nm }), some true)
       else
-        (a.chk (dynFull cfg a) "C06" s!"connect of {u} asking for a dynamic id was refused although ids are free", some false)
+        let a := a.chk (dynFull cfg a) "C06" s!"connect of {u} asking for a dynamic id was refused although ids are free"
+        let a := a.chk (dynFull cfg a || !(a.mods.any (fun o => !o.alive && cfg.dynStart ≤ o.modId))) "C07"
+          s!"connect of {u} asking for a dynamic id was refused although dynamic ids were given back by departed clients"
+        (a, some false)
 
 /-- every CLIENT_INFO frame describes its module as the abstract state has it (options took effect as named) -/
 def checkInfos (a : A) (evs : List Ev) : A :=
@@ -490,7 +496,14 @@ def dataKs (evs : List Ev) (u : Nat) : List Nat :=
 
 def isIota (l : List Nat) : Bool := l == (List.range l.length).map (· + 1)
 
+/-- a frame the harness could not decode as a frame of its type (payload length different from the header's, header of
+    the wrong size, undecodable body) is reported by the driver as `.log 999` -/
+def brokenFrame (f : Frame) : Bool := f.body == .log 999
+
 def checkC05 (a : A) (all : List Ev) (senderOf : Nat → Nat) : A :=
+  let broken := (sends all).filter (fun p => brokenFrame p.2.2)
+  let a := a.chk broken.isEmpty "C05" s!"a frame whose payload does not match its header (type {(broken.head?.map (·.2.2.mtype)).getD 0}) was written to connection {(broken.head?.map (·.1)).getD 0}"
+  let a := a.chk broken.isEmpty "C03" s!"connection {(broken.head?.map (·.1)).getD 0} was sent a malformed frame (header type {(broken.head?.map (·.2.2.mtype)).getD 0}, payload of another message): a client that did nothing wrong is thrown out of frame"
   let uids := ((sends all).map (·.1)).eraseDups
   let a := uids.foldl (fun a u =>
       let a := a.chk (isIota (countsOf all u)) "C05" s!"msg_count sequence on connection {u} is {(countsOf all u).take 12} (must be 1,2,3,…)"
